@@ -22,6 +22,7 @@ import (
 	"strings"
 	"sync"
 	"sync/atomic"
+	"time"
 
 	"github.com/elastos/Elastos.ELA/common"
 	pg "github.com/elastos/Elastos.ELA/core/contract/program"
@@ -99,6 +100,7 @@ type txCase struct {
 	name string
 	tx   interfaces.Transaction
 	full bool // payload populated "all on": participates in the field-survival rule
+	base bool // the fully populated base shape
 }
 
 // inDomain: the encoder is injective on (version ≥ 9) ∪ (version = 0 ∧ type < 9); elsewhere the
@@ -337,8 +339,8 @@ func (c *ctx) checkPrograms(tc txCase, b0 []byte, h0 common.Uint256) {
 	}
 }
 
-// checkSensitivity: every single-byte change (xor 0x01 and xor 0x80; thorough: every single bit
-// flip and xor 0xff) of the unsigned part of the
+// checkSensitivity: every single-byte change (xor 0x01, on the base shape also xor 0x80; thorough:
+// every single bit flip and xor 0xff) of the unsigned part of the
 // encoding that still decodes completely must change the hash exactly when it changes the decoded
 // unsigned value.
 func (c *ctx) checkSensitivity(tc txCase, v1 interfaces.Transaction, b0 []byte, h0 common.Uint256) {
@@ -356,7 +358,10 @@ func (c *ctx) checkSensitivity(tc txCase, v1 interfaces.Transaction, b0 []byte, 
 		r.Violate("C04|unsigned-not-prefix|"+tx.TxType().Name(), "SerializeUnsigned is not a prefix of Serialize", map[string]interface{}{"kind": "tx", "case": tc.name, "bytes": hexs(b0)})
 		return
 	}
-	xors := []byte{0x01, 0x80}
+	xors := []byte{0x01}
+	if tc.base {
+		xors = []byte{0x01, 0x80}
+	}
 	if r.Thorough() {
 		xors = []byte{0x01, 0x02, 0x04, 0x08, 0x10, 0x20, 0x40, 0x80, 0xff}
 	}
@@ -532,7 +537,7 @@ func genTxCases() []txCase {
 					// fresh payload values per case (Fill is deterministic)
 					for _, pvar := range wire.PayloadVariants(t, fl.mk) {
 						tx := wire.NewTx(t, pvar.Version, pvar.Payload, sh, fl.mk())
-						out = append(out, txCase{name: fmt.Sprintf("%s(%02x)/%s/%s/v%d/shape%d", t.Name(), byte(t), pvar.Label, fl.name, ver, si), tx: tx, full: fl.full})
+						out = append(out, txCase{name: fmt.Sprintf("%s(%02x)/%s/%s/v%d/shape%d", t.Name(), byte(t), pvar.Label, fl.name, ver, si), tx: tx, full: fl.full, base: si == 0})
 					}
 				}
 			}
@@ -757,10 +762,20 @@ func main() {
 		}
 		kept = append(kept, tc)
 	}
+	t0 := time.Now()
+	phaseT := func(n string) {
+		if os.Getenv("VERIF_C04_DEBUG") != "" {
+			fmt.Fprintf(os.Stderr, "phase %s: %.1fs\n", n, time.Since(t0).Seconds())
+		}
+		t0 = time.Now()
+	}
+	phaseT("gen")
 	par.Go(len(kept), func(i int) { c.guard("tx", kept[i].name, func() { c.checkTx(kept[i]) }) })
 	sers := genSerCases()
 	par.Go(len(sers), func(i int) { c.guard("ser", sers[i].name, func() { c.checkSer(sers[i]) }) })
+	phaseT("tx+ser")
 	amb := c.checkAmbiguity()
+	phaseT("pairs")
 	c.guard("primitive", "primitives", c.checkPrimitives)
 	bpar, bseq := c.boundaryCases()
 	par.Go(len(bpar), func(i int) { c.guard("boundary", bpar[i].name, func() { c.runBoundary(bpar[i]) }) })
@@ -768,11 +783,13 @@ func main() {
 		bc := bc
 		c.guard("boundary", bc.name, func() { c.runBoundary(bc) })
 	}
+	phaseT("boundary")
 	par.Go(len(bpar), func(i int) { c.guard("numeric", bpar[i].name, func() { c.runNumeric(bpar[i]) }) })
 	for _, bc := range bseq {
 		bc := bc
 		c.guard("numeric", bc.name, func() { c.runNumeric(bc) })
 	}
+	phaseT("numeric")
 	var truncFields []string
 	for k := range c.truncFields {
 		truncFields = append(truncFields, k)
